@@ -140,7 +140,7 @@ pub fn print_grammar(rs: &[Rule]) -> String {
 }
 
 // ------------------------------------------------------------------ generator
-pub struct GenCfg { pub extras: bool, pub guarded: bool, pub stack_ops: bool, pub tags: bool, pub max_rules: usize, pub max_depth: usize, pub builtin_names: bool }
+pub struct GenCfg { pub extras: bool, pub guarded: bool, pub stack_ops: bool, pub tags: bool, pub max_rules: usize, pub max_depth: usize, pub builtin_names: bool, pub tag_shapes: bool }
 pub struct GGen<'a> { pub rng: &'a mut Rng, pub cfg: &'a GenCfg, names: Vec<String>, cur: usize, has_atomic: bool }
 const LITS: &[&str] = &["a", "b", "ab", "c", "é", "ba"];
 fn bx(e: Expr) -> Box<Expr> { Box::new(e) }
@@ -213,7 +213,10 @@ impl<'a> GGen<'a> {
             #[cfg(feature = "extras")]
             20 if self.cfg.extras && self.cfg.stack_ops => Expr::PushLiteral(self.lit()),
             #[cfg(feature = "extras")]
-            21 if self.cfg.extras && self.cfg.tags && !self.has_atomic => match self.rule_ref(leftmost) { Some(e) => Expr::NodeTag(bx(e), self.rng.pick(&["t", "u"]).to_string()), None => self.consuming() },
+            21 if self.cfg.extras && self.cfg.tags && !self.has_atomic => match self.rule_ref(leftmost) { Some(e) => {
+                    // mostly tags on rule references (what the documentation shows); sometimes on an optional or repeated reference
+                    let e = if self.cfg.tag_shapes { match self.rng.below(6) { 0 => Expr::Opt(bx(e)), 1 => Expr::Rep(bx(e)), _ => e } } else { e };
+                    Expr::NodeTag(bx(e), self.rng.pick(&["t", "u"]).to_string()) }, None => self.consuming() },
             22 => { let n = self.rng.range(1, 3); let mut alts: Vec<Expr> = (0..n).map(|_| Expr::Str(self.lit())).collect(); let mut e = alts.pop().unwrap(); while let Some(x) = alts.pop() { e = Expr::Choice(bx(x), bx(e)); }
                 Expr::Rep(bx(Expr::Seq(bx(Expr::NegPred(bx(e))), bx(Expr::Ident("ANY".into()))))) }
             23 if self.cfg.stack_ops => self.stack_stress(d.min(3)),
@@ -246,6 +249,16 @@ impl<'a> GGen<'a> {
         let mut e = { let g = self.stack_group(d); let tail = if self.rng.chance(1, 2) { Expr::Str(self.lit()) } else { Expr::Ident(self.rng.pick(&["PEEK", "POP", "PEEK_ALL"]).to_string()) };
             let reader = Expr::Seq(bx(if self.rng.chance(1, 2) { Expr::Str(self.lit()) } else { Expr::Opt(bx(Expr::Str(self.lit()))) }), bx(Expr::Ident(self.rng.pick(&["PEEK", "POP", "PEEK_ALL", "POP_ALL"]).to_string())));
             Expr::Choice(bx(Expr::Seq(bx(g), bx(tail))), bx(reader)) };
+        // a stack match over several entries directly under `?`, `*` or a non-final alternative (it may match its first
+        // entries and then fail), followed by something that needs the position to be where it was
+        if self.rng.chance(1, 3) {
+            let pk = |g: &mut Self| match g.rng.below(3) { 0 => Expr::Ident("PEEK_ALL".into()), 1 => Expr::PeekSlice(0, None), _ => Expr::PeekSlice(g.rng.below(2) as i32, Some(g.rng.range(1, 3) as i32)) };
+            let p1 = pk(self);
+            let wrapped = match self.rng.below(3) { 0 => Expr::Opt(bx(p1)), 1 => { let p2 = pk(self); Expr::Choice(bx(p1), bx(p2)) } _ => Expr::Rep(bx(Expr::Seq(bx(p1), bx(Expr::Str(self.lit()))))) };
+            let tail = if self.rng.chance(1, 2) { Expr::Str(self.lit()) } else { Expr::Ident("ANY".into()) };
+            e = Expr::Seq(bx(wrapped), bx(tail));
+        }
+        let n = n.max(2);
         for _ in 0..n { e = Expr::Seq(bx(Expr::Push(bx(Expr::Str(self.lit())))), bx(e)); }
         e
     }
@@ -267,6 +280,9 @@ pub fn gen_grammar(rng: &mut Rng, cfg: &GenCfg) -> Vec<Rule> {
         let mut g = GGen { rng, cfg, names: names.clone(), cur: i, has_atomic: has_atomic || ws || cm };
         // rule bodies referenced at leftmost positions must progress: make every rule except r0 progressing
         let expr = if i == 0 { g.any(d, true) } else { g.progressing(d, true) };
+        // one grammar in five is centred on the stack idiom (so that a run of a few hundred grammars always has some):
+        // the start rule begins with it
+        let expr = if i == 0 && cfg.stack_ops && g.rng.chance(1, 5) { let st = g.stack_stress(2); Expr::Seq(bx(st), bx(Expr::Opt(bx(expr)))) } else { expr };
         rules.push(Rule { name: names[i].clone(), ty: rule_tys[i], expr });
     }
     let wtys = [RuleType::Silent, RuleType::Silent, RuleType::Normal, RuleType::Atomic, RuleType::CompoundAtomic, RuleType::NonAtomic];
@@ -291,6 +307,66 @@ pub fn gen_grammar(rng: &mut Rng, cfg: &GenCfg) -> Vec<Rule> {
     }
     if ws && !inner { rules.push(Rule { name: "WHITESPACE".into(), ty: *rng.pick(&wtys), expr: if rng.chance(1, 3) { Expr::Choice(bx(Expr::Str(" ".into())), bx(Expr::Str("_".into()))) } else { Expr::Str(" ".into()) } }); }
     if cm { rules.push(Rule { name: "COMMENT".into(), ty: *rng.pick(&wtys), expr: if rng.chance(1, 2) { Expr::Str("#".into()) } else { Expr::Seq(bx(Expr::Str("#".into())), bx(Expr::Str("#".into()))) } }); }
+    rules
+}
+
+/// A random grammar whose start rule begins with idiom `k` (so that every run, whatever its seed, contains the
+/// shapes that seeded changes were found to need): 0 stack stress, 1 partial stack match under `?`/`|`/`*`, 2 stack
+/// operations inside a positive predicate, 3 skip-until rule with case-sensitive and -insensitive terminators,
+/// 4 predicate over a rule reference, 5 tokenizer loop, 6 WHITESPACE through a helper rule, 7 `(e ~ rest) | e` in a
+/// rule with implicit whitespace, 8/9 `#t = r?` / `#t = r*` (grammar-extras).
+pub fn gen_grammar_idiom(rng: &mut Rng, cfg: &GenCfg, k: usize) -> Vec<Rule> {
+    let mut rules = gen_grammar(rng, cfg);
+    let names: Vec<String> = rules.iter().map(|r| r.name.clone()).collect();
+    let later: Vec<String> = names.iter().skip(1).filter(|n| *n != "WHITESPACE" && *n != "COMMENT" && *n != "wsi" && *n != "txt").cloned().collect();
+    let k = k % 10;
+    let k = if k >= 8 && !(cfg.extras && cfg.tag_shapes && cfg!(feature = "extras")) { k - 4 } else { k };
+    let k = if !cfg.stack_ops && k < 3 { 3 + k % 5 } else { k };
+    let lits = ["a", "b", "c", "ab"];
+    let s = |rng: &mut Rng| Expr::Str(rng.pick(&lits[..]).to_string());
+    let has_ws = names.iter().any(|n| n == "WHITESPACE");
+    let idiom = match k {
+        0 => { let mut g = GGen { rng, cfg, names: names.clone(), cur: 0, has_atomic: true }; g.stack_stress(2) }
+        1 => { let pk = |rng: &mut Rng| match rng.below(3) { 0 => Expr::Ident("PEEK_ALL".into()), 1 => Expr::PeekSlice(0, None), _ => Expr::PeekSlice(0, Some(2)) };
+            let p1 = pk(rng);
+            let w = match rng.below(3) { 0 => Expr::Opt(bx(p1)), 1 => { let p2 = pk(rng); Expr::Choice(bx(p1), bx(p2)) } _ => Expr::Rep(bx(Expr::Seq(bx(p1), bx(s(rng))))) };
+            let tail = if rng.chance(1, 2) { Expr::Ident("ANY".into()) } else { s(rng) };
+            let a = *rng.pick(&["a", "b"]); let b = *rng.pick(&["a", "b", "c"]);
+            Expr::Seq(bx(Expr::Push(bx(Expr::Str(a.into())))), bx(Expr::Seq(bx(Expr::Push(bx(Expr::Str(b.into())))), bx(Expr::Seq(bx(w), bx(tail)))))) }
+        2 => { let inner = match rng.below(4) { 0 => Expr::Push(bx(s(rng))), 1 => Expr::Ident("POP".into()), 2 => Expr::Ident("DROP".into()), _ => Expr::Seq(bx(Expr::Push(bx(s(rng)))), bx(s(rng))) };
+            let pred = if rng.chance(3, 4) { Expr::PosPred(bx(inner)) } else { Expr::NegPred(bx(Expr::NegPred(bx(inner)))) };
+            let reader = Expr::Ident(rng.pick(&["POP", "PEEK", "PEEK_ALL"]).to_string());
+            let mid = if rng.chance(1, 2) { s(rng) } else { Expr::Opt(bx(s(rng))) };
+            Expr::Seq(bx(Expr::Push(bx(s(rng)))), bx(Expr::Seq(bx(pred), bx(Expr::Seq(bx(mid), bx(reader)))))) }
+        3 => { let n = rng.range(1, 4); let pool = ["a", "b", "c", "ab", "ac", "ba", "bc"];
+            let mut alts: Vec<Expr> = (0..n).map(|_| { let t = rng.pick(&pool[..]).to_string(); if rng.chance(1, 3) { Expr::Insens(t) } else { Expr::Str(t) } }).collect();
+            let mut e = alts.pop().unwrap(); while let Some(x) = alts.pop() { e = Expr::Choice(bx(x), bx(e)); }
+            let nm = format!("sk{}", rules.len());
+            rules.push(Rule { name: nm.clone(), ty: RuleType::Atomic, expr: Expr::Rep(bx(Expr::Seq(bx(Expr::NegPred(bx(e.clone()))), bx(Expr::Ident("ANY".into()))))) });
+            Expr::Seq(bx(Expr::Ident(nm)), bx(Expr::Opt(bx(e)))) }
+        4 if !later.is_empty() => { let r = Expr::Ident(rng.pick(&later[..]).clone());
+            let p = match rng.below(5) { 0 | 1 => Expr::NegPred(bx(r)), 2 => Expr::PosPred(bx(r)), 3 => Expr::NegPred(bx(Expr::PosPred(bx(r)))), _ => Expr::NegPred(bx(Expr::NegPred(bx(r)))) };
+            Expr::Seq(bx(p), bx(if rng.chance(1, 2) { Expr::Ident("ANY".into()) } else { s(rng) })) }
+        5 if !later.is_empty() => { let a = Expr::Ident(rng.pick(&later[..]).clone()); let b = Expr::Ident(rng.pick(&later[..]).clone());
+            Expr::Rep(bx(Expr::Choice(bx(a), bx(Expr::Choice(bx(b), bx(Expr::Ident("ANY".into()))))))) }
+        // tags on an optional / repeated rule reference, after another pair (grammar-extras)
+        #[cfg(feature = "extras")]
+        8 | 9 if !later.is_empty() => { let a = Expr::Ident(rng.pick(&later[..]).clone()); let b = Expr::Ident(rng.pick(&later[..]).clone());
+            let tagged = if k == 8 { Expr::NodeTag(bx(Expr::Opt(bx(b))), "t".into()) } else { Expr::NodeTag(bx(Expr::Rep(bx(b))), "t".into()) };
+            if rng.chance(1, 2) { Expr::Seq(bx(a), bx(tagged)) } else { tagged } }
+        7 => { let e = if !later.is_empty() && rng.chance(1, 2) { Expr::Ident(rng.pick(&later[..]).clone()) } else { s(rng) }; let rest = s(rng);
+            rules[0].ty = *rng.pick(&[RuleType::Silent, RuleType::NonAtomic, RuleType::Normal, RuleType::Atomic]);
+            Expr::Choice(bx(Expr::Seq(bx(e.clone()), bx(rest))), bx(e)) }
+        _ => Expr::Seq(bx(s(rng)), bx(s(rng))),
+    };
+    if (k == 6 || k == 7) && !has_ws {
+        if k == 6 { rules.push(Rule { name: "wsi".into(), ty: *rng.pick(&[RuleType::Normal, RuleType::Silent]), expr: Expr::Choice(bx(Expr::Str(" ".into())), bx(Expr::Str("_".into()))) });
+            rules.push(Rule { name: "WHITESPACE".into(), ty: *rng.pick(&[RuleType::Silent, RuleType::Normal, RuleType::CompoundAtomic, RuleType::NonAtomic, RuleType::Atomic]), expr: Expr::Ident("wsi".into()) }); }
+        else { rules.push(Rule { name: "WHITESPACE".into(), ty: RuleType::Silent, expr: Expr::Str(" ".into()) }); }
+    }
+    let old = std::mem::replace(&mut rules[0].expr, Expr::Str(String::new()));
+    // the old body stays reachable; an alternative keeps the start rule from failing outright when the idiom does
+    rules[0].expr = if k == 7 { Expr::Seq(bx(idiom), bx(Expr::Opt(bx(old)))) } else if rng.chance(1, 2) { Expr::Seq(bx(idiom), bx(Expr::Opt(bx(old)))) } else { Expr::Choice(bx(Expr::Seq(bx(Expr::Str("c".into())), bx(old))), bx(idiom)) };
     rules
 }
 
